@@ -58,6 +58,8 @@ def generate(rng, tier, seed):
     cases = [gen_case(rng, f"c13_{seed}_{k}", allow_ite=True, allow_fb=rng.random() < 0.3,
                       n_nodes=rng.choice([4, 6, 9, 14, 20])) for k in range(n)]
     cases += [gen_coll_ref(rng, f"c13_{seed}_coll{k}") for k in range(n // 4)]
+    from .witness import f12_case
+    cases.append(f12_case(f"c13_{seed}_witnessF12"))
     return cases
 
 
@@ -137,6 +139,9 @@ def check_coll(case, tr):
 
 
 def check(case, tr):
+    if case.meta.get("witness"):
+        from .witness import check_witness
+        return check_witness(case, tr)
     if case.meta.get("kind") == "coll":
         return check_coll(case, tr)
     res = Result(signature=case.text().split("\n", 1)[1])
